@@ -16,7 +16,7 @@ import sys
 
 sys.path.insert(0, os.path.dirname(os.path.abspath(__file__)))
 sys.path.insert(0, os.path.dirname(os.path.dirname(os.path.abspath(__file__))))
-from _util import time_limit  # noqa: E402
+from _util import time_limit, call_getters  # noqa: E402
 from lib import extshim  # noqa: E402
 
 mode = extshim.install()
@@ -77,6 +77,15 @@ def one(case):
     # a second, fresh analyzer must give the same answer (no hidden state)
     an2 = SymmetryAnalyzer(atoms, symmetry_tol=tol) if tol is not None else SymmetryAnalyzer(atoms)
     flag2 = an2.get_is_chiral()
+    # history "order of public calls": on a third fresh analyzer a pseudo-random selection of the other public getters is
+    # called first (order a pure function of the case id, or given explicitly by a replay); the flag must be the same
+    called, flag3 = None, None
+    try:
+        an3 = SymmetryAnalyzer(atoms.copy(), symmetry_tol=tol) if tol is not None else SymmetryAnalyzer(atoms.copy())
+        called = call_getters(an3, seed=case.get("getter_seed", case["id"]), names=case.get("getters"), skip=("get_is_chiral",))
+        flag3 = bool(an3.get_is_chiral())
+    except Exception as e:  # noqa
+        flag3 = "error: " + type(e).__name__ + ": " + str(e)[:120]
     # history: ONE analyzer object per tolerance is handed every crystal of this process through set_system(); its answer
     # must be the answer of a fresh analyzer
     reused = None
@@ -89,7 +98,7 @@ def one(case):
         reused = [bool(sh.get_is_chiral()), int(sh.get_space_group_number()), bool(sh.get_is_chiral())]
     except Exception as e:  # noqa
         reused = ["error", type(e).__name__ + ": " + str(e)[:120]]
-    return {"id": case["id"], "number": number, "hall": hall, "reused_analyzer": reused,
+    return {"id": case["id"], "number": number, "hall": hall, "reused_analyzer": reused, "getters_called_first": called, "flag_after_getters": flag3,
             "flag": bool(flag), "flag_type": type(flag).__name__, "flag_again": bool(flag2),
             "rotations": rots.astype(int).tolist(), "rotations_dtype": str(rots.dtype),
             "scanned": spy.seen, "dets": spy.vals, "nonint": spy.nonint}
